@@ -265,12 +265,13 @@ type c03Recv struct {
 	// the first incarnations fail while they are being started (1: in Initialized, 2: in Started)
 	failStart []int
 	inc       int32
+	ctx       atomic.Value // *actor.Context of the running incarnation
 }
 
 type kickMsg struct{}
 
 func (a *c03Recv) Receive(c *actor.Context) {
-	switch c.Message().(type) {
+	switch m := c.Message().(type) {
 	case actor.Initialized:
 		k := int(atomic.AddInt32(&a.inc, 1)) - 1
 		if k < len(a.failStart) && a.failStart[k] == 1 {
@@ -281,9 +282,15 @@ func (a *c03Recv) Receive(c *actor.Context) {
 		if k < len(a.failStart) && a.failStart[k] == 2 {
 			panic("verif: failure in Started")
 		}
+		a.ctx.Store(c) // the Context is handed to helper goroutines (an accept loop, a timer callback)
 	case *tmsg:
 		userPerturb()
 		atomic.AddInt64(&a.n, 1)
+		if m.Baton == 77 {
+			// a transient failure (the kind that does not count against the restart budget): what was taken
+			// from the inbox together with this message is still owed to the actor
+			panic(&actor.InternalError{From: "verif", Err: fmt.Errorf("transient")})
+		}
 	case kickMsg:
 		atomic.AddInt64(&a.kick, 1)
 	}
@@ -304,6 +311,7 @@ func c03Engine(c *caseCtx) (res caseResult) {
 	var recvs []*c03Recv
 	var pids []*actor.PID
 	bumpy := 0
+	transient := r.Intn(3) == 0
 	for i := 0; i < nA; i++ {
 		rc := &c03Recv{}
 		if r.Intn(4) == 0 {
@@ -326,7 +334,17 @@ func c03Engine(c *caseCtx) (res caseResult) {
 			go func() {
 				defer wg.Done()
 				for i := 0; i < per; i++ {
-					e.Send(pids[(s+i)%nA], &tmsg{Sender: s, Seq: i})
+					k := (s + i) % nA
+					m := &tmsg{Sender: s, Seq: i}
+					if transient && (round*7+s+i)%13 == 0 {
+						m.Baton = 77
+					}
+					if cx, ok := recvs[k].ctx.Load().(*actor.Context); ok && (s+i+round)%3 == 0 {
+						// sent through the actor's own Context from this (foreign) goroutine, to the actor itself
+						cx.Send(pids[k], m)
+					} else {
+						e.Send(pids[k], m)
+					}
 				}
 			}()
 		}
@@ -369,7 +387,7 @@ func c03Engine(c *caseCtx) (res caseResult) {
 		}
 	}
 	res.count("engine_messages", total)
-	res.Sig = sigHash("engine", nA, nS, per, bumpy)
+	res.Sig = sigHash("engine", nA, nS, per, bumpy, transient)
 	if c.n < 1 {
 		res.Sample = map[string]any{"scenario": res.Desc, "processed": total}
 	}
